@@ -150,13 +150,15 @@ Proof. exact never_skip_with_empty. Qed.
      interleavings), every call outside the QUADRANT "no extension on the connection and cached
      result metadata requested" that returns rows returns them decoded with the columns the
      answering node encoded them with, and with exactly that node's payload;
-   * C14_announced_in_quadrant: inside the quadrant (no connection has the extension) nothing is
-     ever stored — rows that come without metadata are decoded with the columns announced at
-     preparation — and for every call OUTSIDE THE CLASS [KnownClass] (= some re-preparation
-     announced columns, and other ones than the call decoded with) every re-preparation announced
-     exactly the columns the rows were decoded with: "the metadata most recently announced".
-   Without the extension the server cannot announce an ALTER that evicts nothing; there the decoded
-   columns can lag behind the node's, which the property text does not forbid. *)
+   * C14_announced_in_quadrant (generic system, ANY server; premises: no connection of the run has
+     the extension, no PREPARED carries a metadata id, the initial metadata has no id — so not
+     mixed clusters): nothing is ever stored, and rows that come without metadata are decoded
+     with the columns announced at preparation.
+   For a quadrant call that is NOT in the class [KnownClass] (no re-preparation announced other
+   columns than it decoded with) this means: decoded with what preparation AND every
+   re-preparation announced — by the definition of the class, not by a further theorem.  For a
+   quadrant call nothing is proved about the NODE's columns: without the extension the server
+   cannot announce an ALTER that evicts nothing, and the decoded columns can lag behind. *)
 Theorem C14_faithful : forall (D : schema) (ST : nat -> stmt) (ns : nat) (init : nat -> meta),
   (forall s v v', mid_of D s v = mid_of D s v' -> cols_of D s v = cols_of D s v') ->
   (forall s v, mid_of D s v <> []) ->
@@ -179,16 +181,13 @@ Theorem C14_announced_in_quadrant : forall ST init ls st c a u pg nr cl,
   grun ST (ginit init) ls = Some st ->
   let k := g_calls st c in
   let s := xa_stmt a in
-  k_x k = Some a -> xa_use_cached a = true -> k_st k = CS_done (O_rows u pg nr cl) ->
-  (forall s', g_cells st s' = init s') /\
+  k_x k = Some a -> k_st k = CS_done (O_rows u pg nr cl) ->
+  (forall s', g_cells st s' = init s' /\ g_ann st s' = []) /\
   (exists b rest, k_rcvd k = RRows b :: rest /\
      match rb_meta b with
      | RM_full nid cols => u = meta_of_cols nid cols
      | RM_none _ => m_cols u = m_cols (init s) \/ u = mock_empty
-     end) /\
-  (~ KnownClass ST st c (m_cols u) ->
-   forall c' id pm, In (RPrepared id pm) (k_rcvd (g_calls st c')) -> id = s_id (ST s) -> m_cols pm <> [] ->
-                    m_cols pm = m_cols u).
+     end).
 Proof. exact announced_in_quadrant. Qed.
 
 (* the class the driver computes is the class *)
@@ -663,7 +662,8 @@ Definition exX (q : request) (r : resp) (enc : list col) : xchg := mkXchg q r en
 
 (* the property predicate on one operation: accepts the normal shapes, rejects an UNPREPARED that is
    not followed by a re-preparation, a resend with another value / timestamp, a resend after the id
-   changed, rows decoded with other columns than the node encoded / sent *)
+   changed, a non-error outcome after the id changed, rows decoded with other columns than the node
+   encoded / sent *)
 Example C14_ex_prop_exec :
   let u := RUnprepared (s_id (exST 0)) in
   let p := RPrepared (s_id (exST 0)) (meta_of_cols (Some [7;1]) cA) in
@@ -684,7 +684,9 @@ Example C14_ex_prop_exec :
     [exX (Q_execute exF1) u []; exX prep p []; exX (Q_execute f2ts) exRowsA cA] exObsA = false /\
   prop_exec_ok exST true (exArgs false)
     [exX (Q_execute exF1) u []; exX prep p' []; exX (Q_execute exF1) exRowsA cA] exObsA = false /\
-  prop_exec_ok exST true (exArgs false) [exX (Q_execute exF1) u []; exX prep p' []] (OB_err E_Unprepared) = false /\
+  prop_exec_ok exST true (exArgs false) [exX (Q_execute exF1) u []; exX prep p' []] (OB_err E_Unprepared) = true /\
+  prop_exec_ok exST true (exArgs false) [exX (Q_execute exF1) u []; exX prep p' []] OB_norows = false /\
+  prop_exec_ok exST true (exArgs false) [exX (Q_execute exF1) u []; exX prep p' []] exObsA = false /\
   prop_exec_ok exST true (exArgs false) [exX (Q_execute exF1) exRowsA cB] exObsA = false /\
   prop_exec_ok exST true (exArgs false)
     [exX (Q_execute exF1) (RRows (mkRows (RM_full None cB) None 1 (p_cells payA))) cB] exObsA = false.
@@ -800,6 +802,73 @@ Example C14_ex_mixed_cluster :
   | None => false
   end = true.
 Proof. vm_compute. reflexivity. Qed.
+
+(* hypotheses of C14_ok_sound: a recorded re-preparation history accepted by [g_accept] from [ginit] *)
+Example C14_ex_ok_sound_hyps :
+  let u := RUnprepared (s_id (exST 0)) in
+  let p := RPrepared (s_id (exST 0)) (meta_of_cols (Some [7;1]) cA) in
+  let tr := [TO_exec 0 true (exArgs false)
+               [exX (Q_execute exF1) u []; exX (Q_prepare (s_text (exST 0))) p []; exX (Q_execute exF1) exRowsA cA] exObsA] in
+  match g_accept exST (ginit (exInit true)) 0 tr with
+  | (_, V_ok _) => true
+  | _ => false
+  end = true /\
+  match g_accept exST (ginit (exInit true)) 0
+          [TO_exec 0 true (exArgs false) [exX (Q_execute exF1) u []; exX (Q_prepare 99) p []; exX (Q_execute exF1) exRowsA cA] exObsA] with
+  | (_, V_ok _) => false
+  | _ => true
+  end = true.
+Proof. vm_compute. split; reflexivity. Qed.
+
+(* hypotheses of C14_announced_in_quadrant: a run without the extension that ends with rows decoded
+   with the cached columns *)
+Example C14_ex_quadrant_run :
+  let a := exArgs true in
+  let ls := [GL_exec 0 false a; GL_resp 0 (RRows (mkRows (RM_none 2) None 1 (p_cells payA)))] in
+  Forall noext_label ls /\
+  match grun exST (ginit (exInit false)) ls with
+  | Some st => match k_st (g_calls st 0) with CS_done (O_rows u _ _ _) => cols_eqb (m_cols u) cA | _ => false end
+  | None => false
+  end = true.
+Proof. split; [repeat constructor|vm_compute; reflexivity]. Qed.
+
+(* anchors of the Prop-level definitions the statements use: one instance that holds, one that does not *)
+Example C14_ex_anchor_noext_label :
+  noext_label (GL_exec 0 false (exArgs true)) /\ ~ noext_label (GL_exec 0 true (exArgs true)) /\
+  noext_label (GL_resp 0 (RPrepared [1] (meta_of_cols None cA))) /\
+  ~ noext_label (GL_resp 0 (RPrepared [1] (meta_of_cols (Some [7]) cA))).
+Proof. simpl. repeat split; try reflexivity; intros H; discriminate H. Qed.
+
+Example C14_ex_anchor_carries :
+  carries (RPrepared [1] (meta_of_cols None cA)) (meta_of_cols None cA) /\
+  carries (RRows (mkRows (RM_full (Some [7]) cA) None 0 [])) (meta_of_cols (Some [7]) cA) /\
+  ~ carries RVoid mock_empty /\
+  ~ carries (RRows (mkRows (RM_full None cA) None 0 [])) (meta_of_cols None cA) /\
+  ~ carries (RRows (mkRows (RM_none 2) None 0 [])) (meta_of_cols (Some [7]) cA).
+Proof.
+  repeat split.
+  - left. eauto.
+  - right. exists (mkRows (RM_full (Some [7]) cA) None 0 []), [7], cA. auto.
+  - intros [[id H]|[b [i [c [H _]]]]]; discriminate H.
+  - intros [[id H]|[b [i [c [H [H2 _]]]]]]; [discriminate H|]. inversion H; subst. discriminate H2.
+  - intros [[id H]|[b [i [c [H [H2 _]]]]]]; [discriminate H|]. inversion H; subst. discriminate H2.
+Qed.
+
+Example C14_ex_anchor_call_ok_op_matches_cell_inv :
+  call_ok exST idle_call /\
+  ~ call_ok exST (mkC true (Some (exArgs false)) CS_idle [] []) /\
+  ~ op_matches (ginit (exInit true)) 0 (TO_exec 0 true (exArgs false) [] exObsA) /\
+  cell_inv (exInit true) (ginit (exInit true)) /\
+  ~ cell_inv (exInit true) (mkG (fun _ => mock_empty) (fun _ => idle_call) (fun _ => [])).
+Proof.
+  repeat split.
+  - left. reflexivity.
+  - unfold call_ok. simpl. intros H. inversion H.
+  - intros [H _]. discriminate H.
+  - intros s0 m0 [].
+  - intros c0 a0 q0 m0 H. discriminate H.
+  - intros [H _ _]. specialize (H 0%nat). discriminate H.
+Qed.
 
 Print Assumptions C14_transparent.
 Print Assumptions C14_direct.
